@@ -369,6 +369,13 @@ for (sid, rule) in [("C01", "D3"), ("C02", "T-couple"), ("C03", "D3"), ("C04", "
 # round a5: told about all five earlier seeds of the property (DESIGN 8.5g)
 for (sid, rule) in [("C01", "T-get-immutable"), ("C02", "T-couple"), ("C03", "T-get-immutable"), ("C04", "T-loopvar"), ("C05", "T-unschedule"), ("C06", "T-remaining-term"), ("C07", "T-booked"), ("C08", "T-settle-rebase"), ("C09", "T-msg-immutable"), ("C10", "G-pay"), ("C11", "T-extend-meta"), ("C12", "T-replace"), ("C13", "T-shard-owner"), ("C14", "E6-pair"), ("C15", "T-permute"), ("C16", "T-status-forward"), ("C17", "T-splice-skip"), ("C18", "E6-all"), ("C19", "T-flag-reset"), ("C20", "G-promote")]:
     P.append((f"S-{sid}-a5", sid, rule, f"/verif/seeded/{sid}-a5/patch.diff"))
+# round a6 (DESIGN 8.5h); C08-a6 and C14-a6 are not caught (numeric boundary / index arithmetic of one loop): kept as seeds, not registered
+for (sid, rule) in [("C01", "D3-mem"), ("C02", "L2-index"), ("C03", "D3"), ("C04", "T-fresh-if-missing"), ("C05", "E7-flow"), ("C06", "T-couple"), ("C07", "T-debt-repay"), ("C09", "T-perm-applied"), ("C10", "T-decode-fresh"), ("C11", "E6-pair"), ("C12", "T-refund-booked"), ("C13", "G-renew-shards"), ("C15", "T-decode-fresh"), ("C16", "G-inflight"), ("C17", "G-bind"), ("C18", "T-validate-map"), ("C19", "G-selfrec"), ("C20", "G-promote")]:
+    P.append((f"S-{sid}-a6", sid, rule, f"/verif/seeded/{sid}-a6/patch.diff"))
+# refactor-of-seed composites on round-5 seeds (the new rules under a faithful refactoring)
+for (sid, rule) in [("C01-a5", "T-get-immutable"), ("C05-a5", "T-unschedule"), ("C06-a5", "T-remaining-term"), ("C08-a5", "T-settle-rebase"), ("C09-a5", "T-msg-immutable"),
+                    ("C11-a5", "T-extend-meta"), ("C13-a5", "T-shard-owner"), ("C15-a5", "T-permute"), ("C16-a5", "T-status-forward"), ("C19-a5", "T-flag-reset")]:
+    P.append(("RS-" + sid, sid.split("-")[0], rule, f"/verif/refactored_seeds/{sid}/combined.diff"))
 import glob as _glob
 for d in sorted(_glob.glob("/verif/refactors/R[0-9][0-9]")):
     rid = os.path.basename(d)
